@@ -31,9 +31,11 @@ FLAGSETS = ['', 'C', 'S', 'CS', 'E', 'ET', 'A', 'SA', 'CSE', 'T']
 
 def generate(rng, tier):
     palg = rng.choice(SIGN_ALGS + (['rsa2048'] if rng.random() < 0.1 else []))
-    uids = [{'name': 'Primary Person', 'usage': rng.choice(['C', 'CS', 'CS', 'CSE' if palg.startswith('rsa') else 'CS', 'CA', ''])}]
+    # the second identity's name is contained in the first one's: selecting by user= is by equality, not by containment
+    names = rng.choice([['Primary Person', 'Second Hat'], ['Joann Smith', 'ann Smith'], ['Dr. Max Power', 'Max Power']])
+    uids = [{'name': names[0], 'usage': rng.choice(['C', 'CS', 'CS', 'CSE' if palg.startswith('rsa') else 'CS', 'CA', ''])}]
     if rng.random() < 0.4:
-        uids.append({'name': 'Second Hat', 'usage': rng.choice(['C', 'CS', 'S', 'CA'])})
+        uids.append({'name': names[1], 'usage': rng.choice(['C', 'CS', 'S', 'CA'])})
     subs = []
     for i in range(rng.choice([0, 1, 1, 2, 2, 3])):
         alg = rng.choice(['ed25519', 'p256', 'cv25519', 'cv25519', 'ecdh_p256'])
